@@ -159,7 +159,7 @@ def main(ctx):
             vac.append(("replay class " + need, ctx.classes.get(need, 0)))
     # T ---------------------------------------------------------------------------------------
     trace = ctx.path("trace.ndjson")
-    ctx.harness(["record", "C11", "--out", trace, "--n", 400 if thorough else 40,
+    ctx.harness(["record", "C11", "--out", trace, "--n", 600 if thorough else 40,
                  "--opt", "big=%d" % (24 if thorough else 2), "--opt", "frag=%d" % (16 if thorough else 2),
                  "--opt", "cmd=%d" % (40 if thorough else 4), "--opt", "obipcr=" + obipcr], timeout=1500)
     events, rejects = validate_events(ctx, trace, 3000 if thorough else 600)
